@@ -168,7 +168,10 @@ def build(case, obs, ctx, forced=False):
                 finally:
                     ctx.probe = False
                 obs.maxi(f"fixed_point_residual_over_tol.{name}", res / tol)
-                if res > 1e3 * tol * (1 + float(np.max(np.abs(o)))):
+                # judged for the direct iteration only: Steffensen returns the Aitken-extrapolated point when it moved
+                # by less than the tolerance, which for a strongly expansive map (|f'| >> 1e3) is close to the fixed
+                # point in x although |f(x) - x| is not small - the residual is recorded (maxi above), not judged
+                if name == "direct" and res > 1e3 * tol * (1 + float(np.max(np.abs(o)))):
                     obs.violation(f"solver-returned-non-fixed-point:{name}", f"{name} returned x with |f(x) - x| = {res:.3e} (tolerance {tol})")
             return out
 
